@@ -22,6 +22,7 @@
 #include <unistd.h>
 
 #include <algorithm>
+#include <optional>
 #include <set>
 #include <string>
 #include <thread>
@@ -38,7 +39,7 @@ using std::string;
 
 namespace {
 
-enum { ST_RUNNABLE = 0, ST_BLOCKED_READ = 1, ST_BLOCKED_W1 = 2, ST_BLOCKED_W2 = 3, ST_SLEEPING = 4, ST_EXITING = 5 };
+enum { ST_RUNNABLE = 0, ST_BLOCKED_READ = 1, ST_BLOCKED_W1 = 2, ST_BLOCKED_W2 = 3, ST_SLEEPING = 4, ST_EXITING = 5, ST_STOPPING = 6 };
 
 struct Reply {
   uint8_t state;
@@ -74,6 +75,9 @@ struct Child {
   uint64_t death_clock = 0;
   bool killed_by_parent = false;
   pid_t holder = -1; // passive grandchild created by a HOLD action
+  unsigned inherited_nonblock = 0; // bit i: the child found its standard descriptor i in non-blocking mode
+  bool stopped = false; // the child has stopped itself (SIGSTOP); continued by the simulator at `wake`
+  int pending_fatal_sig = 0; // a fatal signal sent while it was stopped: takes effect when it is continued
 };
 
 struct Sim {
@@ -117,6 +121,8 @@ struct Sim {
   unsigned intruder_at = 0, read_returns = 0;
   bool intruder_ran = false;
   string intruder_failure;
+  int entry_errno = 0; // errno as the call under test finds it
+  string state_diff; // process-wide state the call left changed
 };
 
 Sim g;
@@ -189,12 +195,38 @@ void sim_fail(const string& cls, const string& key, const string& msg) {
   if (cls.rfind("liveness/", 0) == 0) g.poisoned = true;
 }
 
+void wait_zombie();
+
+// End of a simulated sleep. A child that had stopped itself is continued for real here (SIGCONT); a fatal
+// signal that was sent to it meanwhile takes effect now.
+void wake_child() {
+  Child& c = g.ch;
+  c.sleeping = false;
+  if (!c.stopped) return;
+  c.stopped = false;
+  __real_kill(c.pid, SIGCONT);
+  if (c.pending_fatal_sig) {
+    c.death_kind = 2;
+    c.death_value = c.pending_fatal_sig;
+    c.killed_by_parent = true;
+    wait_zombie();
+    ev("child.continued_and_died", c.pending_fatal_sig);
+    return;
+  }
+  Reply r;
+  if (!real_read_all(c.ctl, &r, sizeof(r))) harness_bug("the child did not come back after SIGCONT");
+  c.last = r;
+  ev("child.continued");
+}
+
 bool child_ready_to_step() {
   Child& c = g.ch;
   if (!c.alive) return false;
   if (c.sleeping) {
-    if (g.clock >= c.wake) c.sleeping = false;
-    else return false;
+    if (g.clock >= c.wake) {
+      wake_child();
+      if (!c.alive) return false;
+    } else return false;
   }
   if (c.blocked && !c.maybe_unblocked) return false;
   return true;
@@ -223,6 +255,21 @@ void child_step() {
       c.sleeping = true;
       c.wake = g.clock + r.aux;
       break;
+    case ST_STOPPING: {
+      // wait until the stop has taken effect (WNOWAIT: the event stays there for the code under test to see,
+      // should it ask for stopped children)
+      siginfo_t si;
+      memset(&si, 0, sizeof(si));
+      while (waitid(P_PID, c.pid, &si, WSTOPPED | WNOWAIT) < 0) {
+        if (errno == EINTR) continue;
+        harness_bug("waitid(WSTOPPED) failed");
+      }
+      c.stopped = true;
+      c.sleeping = true;
+      c.wake = g.clock + r.aux;
+      VS_FAULT("child_stopped_by_SIGSTOP");
+      break;
+    }
     case ST_RUNNABLE:
       if (r.aux && c.holder < 0) c.holder = (pid_t)r.aux; // reply to HOLD
       break;
@@ -277,7 +324,7 @@ void sched_point(const char* what, uint64_t arg = 0) {
       add_sim_time_us(jump);
       g.clock += jump;
       g.max_jump = std::max(g.max_jump, jump);
-      if (g.clock >= g.ch.wake) g.ch.sleeping = false;
+      if (g.clock >= g.ch.wake) wake_child();
       g.quiet_calls = 1; // still the same spin: keep spin_start_clock
       VS_PROBE("parent_busy_wait_skipped");
     } else if (g.quiet_calls > 20000) {
@@ -307,7 +354,7 @@ Progress let_world_move(bool has_deadline, uint64_t deadline) {
     }
     add_sim_time_us(t > g.clock ? t - g.clock : 0);
     g.clock = std::max(g.clock, t);
-    g.ch.sleeping = false;
+    wake_child();
     VS_PROBE("clock_jumped_over_child_sleep");
     return MOVED;
   }
@@ -351,12 +398,19 @@ void run_intruder() {
   string text(3000 + 17 * (g.read_returns % 7), 'B');
   text += "<end of the second caller's text>";
   std::thread t([&]() {
-    try {
-      auto r = phosg::run_process({"/bin/echo", "-n", text}, nullptr, true, nullptr, nullptr, 0);
-      if (r.stdout_contents != text) g.intruder_failure = "its run_process of /bin/echo returned " + std::to_string(r.stdout_contents.size()) + " bytes of stdout that are not the " + std::to_string(text.size()) + " bytes echo wrote";
-      else if (!r.stderr_contents.empty()) g.intruder_failure = "its run_process of /bin/echo returned " + std::to_string(r.stderr_contents.size()) + " bytes of stderr although echo wrote none";
-    } catch (const std::exception& e) {
-      g.intruder_failure = string("its run_process of /bin/echo threw: ") + e.what();
+    // (a real fork/exec can fail for lack of resources on a loaded machine: that is not a verdict about the
+    // library, so the call is tried up to three times and only a failure of all three is recorded)
+    for (int attempt = 0; attempt < 3; attempt++) {
+      g.intruder_failure.clear();
+      try {
+        auto r = phosg::run_process({"/bin/echo", "-n", text}, nullptr, true, nullptr, nullptr, 0);
+        if (r.stdout_contents != text) g.intruder_failure = "its run_process of /bin/echo returned " + std::to_string(r.stdout_contents.size()) + " bytes of stdout that are not the " + std::to_string(text.size()) + " bytes echo wrote";
+        else if (!r.stderr_contents.empty()) g.intruder_failure = "its run_process of /bin/echo returned " + std::to_string(r.stderr_contents.size()) + " bytes of stderr although echo wrote none";
+      } catch (const std::exception& e) {
+        g.intruder_failure = string("its run_process of /bin/echo threw: ") + e.what();
+      }
+      if (g.intruder_failure.empty()) break;
+      usleep(20000);
     }
   });
   t.join();
@@ -421,7 +475,9 @@ pid_t __wrap_fork(void) {
     VS_PROBE("exec_failed_in_child");
   }
   c.last = hello;
-  ev("fork");
+  c.inherited_nonblock = (unsigned)hello.aux;
+  c.last.aux = 0;
+  ev("fork", c.inherited_nonblock);
   return pid;
 }
 
@@ -705,7 +761,10 @@ int __wrap_kill(pid_t pid, int sig) {
       g.first_kill_sig = sig;
     }
     bool fatal = sig == SIGKILL || (sig == SIGTERM && !g.ch.ign_term) || (sig != SIGTERM && sig != SIGCHLD && sig != SIGCONT && sig != SIGURG && sig != SIGWINCH);
-    if (fatal && g.ch.alive) {
+    if (fatal && g.ch.alive && g.ch.stopped && sig != SIGKILL) {
+      // a stopped process does not act on a signal (other than SIGKILL and SIGCONT) until it is continued
+      if (!g.ch.pending_fatal_sig) g.ch.pending_fatal_sig = sig;
+    } else if (fatal && g.ch.alive) {
       g.ch.death_kind = 2;
       g.ch.death_value = sig;
       g.ch.killed_by_parent = true;
@@ -737,6 +796,7 @@ std::set<int> open_fds() {
 
 struct Script {
   string text;
+  bool stops_itself = false;
   bool reads_to_eof = false; // the child consumes stdin until EOF (if nothing kills it first)
   bool uses_cat = false;
   uint64_t w1 = 0, w2 = 0; // pattern bytes the script writes (if it runs to completion)
@@ -865,6 +925,14 @@ Script gen_script(bool for_communicate, size_t pipe_cap) {
     a.insert(a.begin(), "IGNTERM");
     s.ignores_term = true;
   }
+  if (choose(8, "stops") == 7) {
+    // the child is stopped for a while (job control, a debugger, SIGSTOP from an operator) and continued later:
+    // a stopped child has not terminated
+    uint64_t us = pick({1500000, 1000, 50000, 3000000}, "stops.for");
+    a.insert(a.begin() + choose(a.size() + 1, "stops.at"), "STOP:" + std::to_string(us));
+    s.total_sleep += us;
+    s.stops_itself = true;
+  }
   if (!for_communicate && choose(8, "hold") == 7) {
     // a background grandchild inherits the pipes: after the child's exit the parent's reads end with
     // EAGAIN instead of EOF (communicate() would rightly wait for such a grandchild, so not there)
@@ -929,7 +997,42 @@ void draw_environment() {
   if (choose(8, "parent.heartbeat") == 7) g.heartbeat_us = pick({100000, 300000, 10000}, "parent.heartbeat.period");
   if (choose(4, "parent.other_thread_opens") == 3) g.foreign_den = (uint32_t)pick({1, 2}, "parent.other_thread_opens.rate");
   if (choose(8, "parent.second_caller") == 7) g.intruder_at = 1 + choose(6, "parent.second_caller.at");
+  // errno as the call finds it: whatever an earlier, unrelated call of the program left behind
+  g.entry_errno = (int)pick({0, 0, EAGAIN, EINTR, EPIPE, ECHILD, ENOENT}, "parent.errno_on_entry");
 }
+
+// Process-wide state a library call must hand back as it found it: the dispositions of SIGPIPE and SIGCHLD and
+// the signal mask (the harness - like any program that uses pipes to children - ignores SIGPIPE).
+struct ProcessState {
+  struct sigaction pipe_act, chld_act;
+  sigset_t mask;
+  void capture() {
+    sigaction(SIGPIPE, nullptr, &pipe_act);
+    sigaction(SIGCHLD, nullptr, &chld_act);
+    sigprocmask(SIG_SETMASK, nullptr, &mask);
+  }
+  // restores what it found changed and says what that was ("" if nothing)
+  string restore_and_diff() const {
+    ProcessState now;
+    now.capture();
+    string d;
+    if (now.pipe_act.sa_handler != pipe_act.sa_handler) {
+      d += string("the disposition of SIGPIPE (was ") + (pipe_act.sa_handler == SIG_IGN ? "ignored" : "something else") + ", is now " + (now.pipe_act.sa_handler == SIG_DFL ? "the default: the next write to a closed pipe kills the program" : "different") + ")";
+      sigaction(SIGPIPE, &pipe_act, nullptr);
+    }
+    if (now.chld_act.sa_handler != chld_act.sa_handler) {
+      d += string(d.empty() ? "" : "; ") + "the disposition of SIGCHLD";
+      sigaction(SIGCHLD, &chld_act, nullptr);
+    }
+    bool mask_differs = false;
+    for (int sig = 1; sig < 32; sig++) mask_differs |= sigismember(&now.mask, sig) != sigismember(&mask, sig);
+    if (mask_differs) {
+      d += string(d.empty() ? "" : "; ") + "the signal mask";
+      sigprocmask(SIG_SETMASK, &mask, nullptr);
+    }
+    return d;
+  }
+};
 
 // Runs the armed section with the process's descriptor 0 closed (and puts it back afterwards), so that
 // the first pipe() of the code under test is handed descriptor 0.
@@ -982,6 +1085,12 @@ void reap_leftovers(const string& api, bool expect_reaped) {
 
 void check_outputs(const string& api, const Script& s, const string& out, const string* err, const string& payload, bool child_ran_to_completion) {
   const Reply& r = g.ch.last;
+  if (g.ch.inherited_nonblock) {
+    string which;
+    for (int fd = 0; fd < 3; fd++)
+      if (g.ch.inherited_nonblock & (1u << fd)) which += (which.empty() ? "" : ", ") + string(fd == 0 ? "stdin" : (fd == 1 ? "stdout" : "stderr"));
+    fail(api + "/child_given_nonblocking_stdio", which, "the child process found its " + which + " in non-blocking mode (O_NONBLOCK set on the pipe by the parent survives fork and exec): an ordinary program (cat, head, ...) gets EAGAIN there as soon as the parent is slower than it, so its output is cut or it fails");
+  }
   // stdout
   if (s.uses_cat) {
     if (out.size() != r.w1_total || payload.compare(0, out.size(), out) != 0) {
@@ -1047,7 +1156,10 @@ void scen_run_process() {
   uint64_t t_start = g.clock;
   {
     Fd0Closer fd0(g.close_fd0);
+    ProcessState before_call;
+    before_call.capture();
     g.armed = true;
+    errno = g.entry_errno;
     try {
       res = phosg::run_process(cmd, with_stdin ? &payload : nullptr, check, nullptr, nullptr, timeout);
     } catch (const std::exception& e) {
@@ -1055,6 +1167,7 @@ void scen_run_process() {
       what = e.what();
     }
     g.armed = false;
+    g.state_diff = before_call.restore_and_diff();
     finish_foreign();
   }
   if (exec_fails) __fpurge(stdout); // drop the marker text again
@@ -1123,6 +1236,7 @@ void scen_run_process() {
   }
   (void)timed_out_expected;
 
+  if (!g.state_diff.empty()) fail("run_process/left_process_state_changed", g.state_diff.substr(0, g.state_diff.find(" (")), "run_process returned with process-wide state changed: " + g.state_diff);
   if (!g.foreign_failure.empty()) fail("run_process/closed_descriptor_it_does_not_own", threw ? "exception_path" : "normal_path", g.foreign_failure);
   if (g.intruder_ran && !g.intruder_failure.empty()) fail("run_process/second_caller_disturbed", s.family, "a second thread called run_process while this call was parked at the return of a read(): " + g.intruder_failure);
   // descriptors: whatever path was taken, the call must not leave any behind
@@ -1165,10 +1279,14 @@ void scen_communicate() {
   int wait_status = -1;
   set_context("communicate/" + s.family);
   uint64_t t_start = 0, t_return = 0;
+  ProcessState before_call;
+  before_call.capture();
   g.armed = true;
+  errno = g.entry_errno;
   try {
     phosg::Subprocess sp(cmd);
     t_start = g.clock;
+    errno = g.entry_errno;
     try {
       out = sp.communicate(payload, deadline);
       t_return = g.clock;
@@ -1183,6 +1301,7 @@ void scen_communicate() {
     harness_bug(string("Subprocess construction failed: ") + e.what());
   }
   g.armed = false;
+  g.state_diff = before_call.restore_and_diff();
   finish_foreign();
   set_context("");
   Child& c = g.ch;
@@ -1198,6 +1317,7 @@ void scen_communicate() {
   if (already_failed || failed()) throw AbortRun();
 
   int expected_status = c.death_kind == 1 ? (c.death_value << 8) : c.death_value;
+  if (!g.state_diff.empty()) fail("communicate/left_process_state_changed", g.state_diff.substr(0, g.state_diff.find(" (")), "Subprocess/communicate returned with process-wide state changed: " + g.state_diff);
   if (!g.foreign_failure.empty()) fail("communicate/closed_descriptor_it_does_not_own", threw ? "exception_path" : "normal_path", g.foreign_failure);
   if (g.intruder_ran && !g.intruder_failure.empty()) fail("communicate/second_caller_disturbed", s.family, "a second thread called run_process while communicate was parked at the return of a read(): " + g.intruder_failure);
   if (threw) {
@@ -1256,11 +1376,25 @@ void scen_lifecycle() {
   set_context("lifecycle/" + s.family);
   g.armed = true;
   try {
-    phosg::Subprocess first(cmd);
-    phosg::Subprocess* sp = &first;
-    // (moving a Subprocess is not exercised: its move constructor reads the never-initialised member
-    // `terminated`, which UBSan rejects depending on stack garbage; C15 makes no statement about moves)
-    (void)move_it;
+    // The owner of the child may have received it by move construction or move assignment, and the object it
+    // was moved out of is destroyed at once, while the child is running (`worker = Subprocess(cmd)`).
+    phosg::Subprocess holder;
+    std::optional<phosg::Subprocess> first, second;
+    errno = g.entry_errno;
+    first.emplace(cmd);
+    phosg::Subprocess* sp = &*first;
+    if (move_it) {
+      if (choose(2, "lc.move.kind")) {
+        second.emplace(std::move(*first));
+        sp = &*second;
+        VS_PROBE("subprocess_move_constructed");
+      } else {
+        holder = std::move(*first);
+        sp = &holder;
+        VS_PROBE("subprocess_move_assigned");
+      }
+      first.reset();
+    }
     for (unsigned i = 0; i < polls; i++) polled.push_back(sp->wait(true));
     if (sig && g.ch.alive) sp->kill(sig);
     if (close_stdin_and_wait) {
@@ -1381,6 +1515,6 @@ int main(int argc, char** argv) {
       {"scheduling between parent and child, clock, poll timeouts, EINTR/EAGAIN/short transfers", "simulator (link-time wrappers in engines/sim_proc.cc)"}};
   e.expected_probes = {"payload_larger_than_pipe", "output_larger_than_pipe", "clock_jumped_over_child_sleep", "poll_timed_out", "blocking_waitpid", "timeout_killed_child", "check_threw_on_nonzero_status",
       "child_died_by_own_signal", "child_exited_with_unread_output_in_pipe", "communicate_with_deadline_returned", "communicate_without_deadline_returned", "communicate_deadline_passed", "parent_busy_wait_skipped", "lifecycle_waited", "destructor_killed_running_child", "destructor_found_child_exited", "run_process_called_repeatedly", "grandchild_kept_pipes_open", "sigkill_after_ignored_sigterm", "destructor_ended_running_child", "caller_without_descriptor_0", "caller_without_descriptor_1", "exec_failed_in_child"};
-  e.expected_faults = {"EINTR@poll", "EINTR@waitpid", "spurious_EAGAIN@read", "spurious_EAGAIN@write", "short_read", "short_write", "parent_stall", "EINTR@poll(periodic_signal)", "other_thread_reuses_fd_number", "second_caller_during_read"};
+  e.expected_faults = {"EINTR@poll", "EINTR@waitpid", "spurious_EAGAIN@read", "spurious_EAGAIN@write", "short_read", "short_write", "parent_stall", "EINTR@poll(periodic_signal)", "other_thread_reuses_fd_number", "second_caller_during_read", "child_stopped_by_SIGSTOP"};
   return driver_main(argc, argv, e);
 }
